@@ -21,16 +21,21 @@ type N struct {
 	C []*N
 }
 
-func n(k string, cs ...*N) *N         { return &N{K: k, C: cs} }
-func ns(k, s string, cs ...*N) *N     { return &N{K: k, S: s, C: cs} }
-func nInt(i int64) *N                 { return &N{K: "int", I: i} }
-func nBool(b bool) *N                 { return &N{K: "bool", I: b2i(b)} }
-func nStr(s string) *N                { return &N{K: "str", S: s} }
-func nId(s string) *N                 { return &N{K: "id", S: s} }
-func nInfix(op string, l, r *N) *N    { return &N{K: "infix", S: op, C: []*N{l, r}} }
-func nBlock(stmts ...*N) *N           { return &N{K: "block", C: stmts} }
-func nCall(f *N, args ...*N) *N       { return &N{K: "call", C: append([]*N{f}, args...)} }
-func nVar(name string, e *N) *N       { return &N{K: "var", S: name, C: []*N{e}} }
+func n(k string, cs ...*N) *N     { return &N{K: k, C: cs} }
+func ns(k, s string, cs ...*N) *N { return &N{K: k, S: s, C: cs} }
+func nInt(i int64) *N {
+	if i < 0 { // the language has no negative literals: -1 is the prefix operator applied to 1
+		return &N{K: "prefix", S: "-", C: []*N{{K: "int", I: -i}}}
+	}
+	return &N{K: "int", I: i}
+}
+func nBool(b bool) *N                  { return &N{K: "bool", I: b2i(b)} }
+func nStr(s string) *N                 { return &N{K: "str", S: s} }
+func nId(s string) *N                  { return &N{K: "id", S: s} }
+func nInfix(op string, l, r *N) *N     { return &N{K: "infix", S: op, C: []*N{l, r}} }
+func nBlock(stmts ...*N) *N            { return &N{K: "block", C: stmts} }
+func nCall(f *N, args ...*N) *N        { return &N{K: "call", C: append([]*N{f}, args...)} }
+func nVar(name string, e *N) *N        { return &N{K: "var", S: name, C: []*N{e}} }
 func nAssign(name, op string, e *N) *N { return &N{K: "assign", S: name + " " + op, C: []*N{e}} }
 func b2i(b bool) int64 {
 	if b {
@@ -117,7 +122,7 @@ func Expr(x *N) string {
 		p := precTable[x.S]
 		return sub(x.C[0], p, false) + " " + x.S + " " + sub(x.C[1], p, true)
 	case "prefix":
-		in := sub(x.C[0], 13, false)
+		in := sub(x.C[0], 14, false) // `in`/`not in` and other prefix operators share the prefix level
 		if x.S == "-" && strings.HasPrefix(in, "-") {
 			in = "(" + in + ")"
 		}
@@ -359,21 +364,21 @@ func CtlUnderOperands(p *N) bool {
 // ---------------------------------------------------------------- generation
 
 type GenOpts struct {
-	MaxStmts  int // statements per block
-	MaxDepth  int // nesting depth
-	Budget    int // total node budget
-	Funcs     bool
-	Closures  bool
-	Containers bool
-	Strings   bool
-	CtlHeavy  bool // favour loops/switch/break/continue/return placement (C04)
+	MaxStmts      int // statements per block
+	MaxDepth      int // nesting depth
+	Budget        int // total node budget
+	Funcs         bool
+	Closures      bool
+	Containers    bool
+	Strings       bool
+	CtlHeavy      bool // favour loops/switch/break/continue/return placement (C04)
 	NoCtlInSwitch bool // stay inside the guard NoCtlUnderOperands
 }
 
 type gvar struct {
-	name string
-	ty   string // int bool str list func
-	cnst bool
+	name  string
+	ty    string // int bool str list func
+	cnst  bool
 	arity int
 }
 
